@@ -158,6 +158,7 @@ class CopyWorld:
             if k == 'snap':
                 snaps += 1
                 op['kind'] = rng.choice(['deepcopy', 'deepcopy', 'pickle2', 'pickle3', 'pickle4', 'pickle5'])
+                op['inbatch'] = rng.random() < 0.2
             if k == 'leaf':
                 op['p'] = rng.choice(['v', 'w'])
                 op['same'] = rng.random() < 0.1
@@ -238,6 +239,13 @@ class CopyWorld:
             out.log.append(f"{step} {k} side={si} {op.get('kind', '')}")
             out.stats['op.' + k] += 1
             if k == 'snap':
+                import contextlib
+                # (optionally) the snapshot is taken in the middle of a batch on the object: the copy is an idle object all the same
+                cm = param.parameterized.batch_call_watchers(o) if op.get('inbatch') else contextlib.nullcontext()
+                cm.__enter__()
+                if op.get('inbatch'):
+                    o.a = fresh()
+                    out.stats['probe.snapshot_taken_inside_a_batch'] += 1
                 before = state_of(o)
                 try:
                     if op['kind'] == 'deepcopy':
@@ -245,6 +253,7 @@ class CopyWorld:
                     else:
                         c = pickle.loads(pickle.dumps(o, protocol=int(op['kind'][-1])))
                 except Exception as e:      # noqa
+                    cm.__exit__(None, None, None)
                     viol('C17.succeeds', step, f"{op['kind']} of a {K.__name__} with state {before} raised {type(e).__name__}: {str(e)[:160]}")
                     break
                 out.stats['snapshot.' + op['kind']] += 1
@@ -255,12 +264,14 @@ class CopyWorld:
                     out.stats['probe.snapshot_with_instance_parameter_edit'] += 1
                     snapped_interesting = True
                 got = state_of(c)
+                orig_after = state_of(o)
+                cm.__exit__(None, None, None)
                 if got != before:
                     diff = {kk: (before[kk], got[kk]) for kk in before if before[kk] != got[kk]}
                     viol('C17.equal', step, f"{op['kind']}: the copy differs from the original at the snapshot: {diff}")
                     break
-                if state_of(o) != before:
-                    viol('C17.independent', step, f"{op['kind']}: taking the snapshot changed the original: {before} -> {state_of(o)}")
+                if orig_after != before:
+                    viol('C17.independent', step, f"{op['kind']}: taking the snapshot changed the original: {before} -> {orig_after}")
                     break
                 if c.l is o.l or c.extra is o.extra or c.extra['k'] is o.extra['k'] or c.calls is o.calls or (o.sub is not None and c.sub is o.sub):
                     viol('C17.independent', step, f"{op['kind']}: the copy shares a mutable object with the original")
